@@ -84,8 +84,14 @@ theorem selectDecryptor_frame (s : St σ) (p : Pkt) : FrameSel s (selectDecrypto
     · exact FrameSel.refl s
   · exact FrameSel.refl s
 
-theorem getFullPn_frame (s : St σ) (p : Pkt) : FramePn s (getFullPn s p).1 := by
-  unfold getFullPn pnStore
+/-- (was `getFullPn_frame` before the pn-store repair: `getFullPn` is pure now, the store is `setLargestPn`) -/
+theorem setLargestPn_frame (s : St σ) (p : Pkt) (pn : Bytes) : FramePn s (setLargestPn s p pn) := by
+  unfold setLargestPn pnStore
+  repeat' split
+  all_goals exact ⟨_, _, rfl⟩
+
+theorem Legacy.getFullPn_frame (s : St σ) (p : Pkt) : FramePn s (Legacy.getFullPn s p).1 := by
+  unfold Legacy.getFullPn pnStore
   repeat' split
   all_goals exact ⟨_, _, rfl⟩
 
@@ -198,25 +204,21 @@ theorem handleFrames_cids (s : St σ) (p : Pkt) (fs : List Frame.Parsed) : CidsM
 
 theorem decryptRest_cids (s : St σ) (p : Pkt) (d? : Option Dec) : CidsMono s (decryptRest P s p d?).1 := by
   unfold decryptRest
-  have h2 := (getFullPn_frame s p).cids
-  split <;> (rename_i heq2; rw [heq2] at h2)
-  · exact h2
-  · repeat' split
-    all_goals first
-      | exact h2
-      | exact h2.trans (handleFrames_cids P _ p _)
+  repeat' split
+  all_goals first
+    | exact CidsMono.refl s
+    | exact (setLargestPn_frame s p _).cids
+    | exact (setLargestPn_frame s p _).cids.trans (handleFrames_cids P _ p _)
 
 /-- everything after the decryptor lookup: packet-number tables, then what `handle_frame` may change -/
 theorem decryptRest_frame (s : St σ) (p : Pkt) (d? : Option Dec) :
     ∃ s1, FramePn s s1 ∧ FrameH s1 (decryptRest P s p d?).1 := by
   unfold decryptRest
-  have h2 := getFullPn_frame s p
-  split <;> (rename_i heq2; rw [heq2] at h2)
-  · exact ⟨_, h2, FrameH.refl _⟩
-  · repeat' split
-    all_goals first
-      | exact ⟨_, h2, FrameH.refl _⟩
-      | exact ⟨_, h2, handleFrames_frame P _ p _⟩
+  repeat' split
+  all_goals first
+    | exact ⟨_, FramePn.refl s, FrameH.refl _⟩
+    | exact ⟨_, setLargestPn_frame s p _, FrameH.refl _⟩
+    | exact ⟨_, setLargestPn_frame s p _, handleFrames_frame P _ p _⟩
 
 theorem decryptPacket_cids (s : St σ) (p : Pkt) : CidsMono s (decryptPacket P s p).1 := by
   unfold decryptPacket
